@@ -1,0 +1,51 @@
+//go:build verif
+
+package replication
+
+import (
+	"github.com/KevoDB/kevo/pkg/wal"
+	replication_proto "github.com/KevoDB/kevo/proto/kevo/replication"
+)
+
+// The functions in this file exist only for verification harnesses (build tag
+// verif). They expose unexported paths of the replica and the primary so that
+// delivery schedules can be driven without the 50 ms / 1 s state-machine ticks.
+
+// VerifProcessBatch hands one stream message to the path the streaming state
+// uses (processEntriesWithoutStateTransitions).
+func (r *Replica) VerifProcessBatch(resp *replication_proto.WALStreamResponse) error {
+	return r.processEntriesWithoutStateTransitions(resp)
+}
+
+// VerifProcessBatchAck hands one stream message to the waiting-for-data path
+// (processEntries), which also walks the fsync/acknowledge states.
+func (r *Replica) VerifProcessBatchAck(resp *replication_proto.WALStreamResponse) error {
+	return r.processEntries(resp)
+}
+
+// VerifSetClient installs a replication service client (what a connector's
+// Connect has to do; the field is unexported).
+func (r *Replica) VerifSetClient(c replication_proto.WALReplicationServiceClient) {
+	r.mu.Lock()
+	defer r.mu.Unlock()
+	r.client = c
+}
+
+// VerifExpectedNext returns the next sequence number the replica's batch
+// applier expects.
+func (r *Replica) VerifExpectedNext() uint64 {
+	return r.batchApplier.GetExpectedNext()
+}
+
+// VerifEntriesFrom returns the log entries the primary would send to a
+// replica that asks for everything from the given sequence number.
+func (p *Primary) VerifEntriesFrom(fromSequence uint64) ([]*wal.Entry, error) {
+	return p.getWALEntriesFromSequence(fromSequence)
+}
+
+// VerifSessionCount returns the number of registered replica sessions.
+func (p *Primary) VerifSessionCount() int {
+	p.mu.RLock()
+	defer p.mu.RUnlock()
+	return len(p.sessions)
+}
